@@ -197,6 +197,20 @@ class Facts:
         self.fns = {}
         for p_, b in bodies.items():
             self.fns[p_] = Fn(b)
+        # a closure written inside a helper that was inlined away is now built inside the helper's caller: that is
+        # where its captured variables have to be looked up
+        if getattr(self, "removed", None):
+            into = {}
+            for (caller_, helper_) in self.inlined:
+                into.setdefault(helper_, caller_)
+            for fn_ in self.fns.values():
+                par_ = getattr(fn_, "parent", None)
+                hops_ = 0
+                while fn_.kind == "closure" and par_ and par_ not in self.fns and par_ in into and hops_ < 8:
+                    par_ = into[par_]
+                    hops_ += 1
+                if par_ != getattr(fn_, "parent", None):
+                    fn_.parent = par_
         self.adts = {a["path"]: a for a in self.d["adts"]}
         self.sigs = {s["path"]: s for s in self.d["sigs"]}
         self.consts = {c["path"]: int(c["val"]) for c in self.d["consts"]}
